@@ -349,7 +349,10 @@ DoPut(x) ==
   /\ IsReg(x) /\ InFlight = {}
   /\ LET r == EnginePutReg(Cur, x) IN
        /\ Install(r[2]) /\ res' = [c |-> r[1]]
-  /\ UNCHANGED <<cat, mode, fput, fget, epoch, gcDone, ops, prot, rem, rbm, ptl>> /\ ev' = EmptyEv
+       \* a copy stored after a removal of the object was accepted (e.g. after GC collected it): the per-object notion
+       \* "removed" of C20 is undetermined from here on (the engine's marks are per copy)
+       /\ ptl' = IF r[1] = "ok" /\ r[2] # Cur /\ x \in rem THEN ptl \cup {x} ELSE ptl
+  /\ UNCHANGED <<cat, mode, fput, fget, epoch, gcDone, ops, prot, rem, rbm>> /\ ev' = EmptyEv
 
 DoBStart(x, ord) ==
   /\ ~IsReg(x) /\ ops[x].st = "idle" /\ Cardinality(InFlight) < MaxInFlight
@@ -531,9 +534,6 @@ Events ==
 
 \* environment restriction used by the "repaired world" configuration
 EnvOK(e) ==
-  \* histories are "puts, then removals": an object is not put again after a removal of it was accepted or
-  \* partially applied (the reference notion "removed" of C20 is per object, the engine's marks are per copy)
-  /\ (e.ev = "Put" => e.o \notin rem \cup ptl)
   \* Evacuate of a shard that is not read-only is refused without any effect: not explored
   /\ (e.ev = "Evacuate" => \A i \in 1..Len(e.srcs) : mode[e.srcs[i]] # "rw")
   /\ (HealthyLock /\ e.ev = "BStart" /\ Kind(e.o) = "lock") => \A s \in Shards : mode[s] = "rw" /\ ~fput[s]
@@ -638,6 +638,12 @@ ScenarioHit ==
              "degraded" \in C20Classes
         [] Scenario = "partial-removal" ->   \* C20: a removed object served by a shard that missed the removal
              "partial-removal" \in C20Classes
+        [] Scenario = "removed-behind-degraded" ->  \* C20: the shard that knows the tombstone follows a degraded one in HRW order
+             \E o \in Regs : EngineGet(Cur, o) = "removed" /\ mode[cat[o].ord[1]] = "dro" /\ (\E s \in Shards : o \in blob[s] /\ mode[s] # "dro")
+        [] Scenario = "put-after-tombstone" ->      \* C20: Put of an object whose tombstone is stored on a later shard only is refused
+             LastIs("Put") /\ res.c = "fail" /\ lastev.o \in rem
+               /\ \E t \in Ids : Kind(t) = "ts" /\ Tgt(t) = lastev.o /\ t \notin meta[cat[lastev.o].pord[1]] /\ mode[cat[lastev.o].pord[1]] = "rw"
+                                  /\ (\E s \in Shards : t \in meta[s])
         [] Scenario = "second-pass" ->       \* C20: Get succeeds only in the second (metadata-less) pass
              \E o \in Regs : EngineGet(Cur, o) = "ok" /\ EngineHead(Cur, o) # "ok" /\ Ref(o)
         [] Scenario = "two-copies-removed" ->  \* C20: Delete has to mark both copies of an object
